@@ -38,7 +38,7 @@ static int band_of_lat(double lat) {
 // ------------------------------------------------------------------ cause classifier (used ONLY to name the violation key)
 // When the library's string is not the exact truncation, this model of double-precision evaluation tells which rounding
 // explains it: (a) "north" northing y < 0 folded by y + 1e7 in double (inexact), (b) x * 1e6 rounded up to an integer.
-struct LibModel { bool subnormal = false, fold_to_equator = false, fold_inexact = false, product = false; rm::Pt pm; };
+struct LibModel { bool fold_to_equator = false, fold_inexact = false, product = false; rm::Pt pm; };
 static LibModel lib_model(int zone, bool northp, double x, double y, const rm::Pt& p) {
   LibModel m; m.pm = p;
   double yv = y;
@@ -81,45 +81,36 @@ static FwdRes judge_fwd(Ctx& c, int zone, bool northp, double x, double y, const
     if (f.st == 1) {
       if (f.touched) c.viol("sentinel:C05/forward/output-written-on-throw", cls, jpt(zone, northp, x, y).i("prec", prec));
       LibModel m = lib_model(zone, northp, x, y, p);
-      c.viol(m.subnormal ? "oracle:C05/forward/negative-subnormal-northing" :
-             m.fold_to_equator ? "oracle:C05/forward/rejected-legal-coordinate/north-convention-northing-in-(-1nm,0)" :
+      c.viol(m.fold_to_equator ? "oracle:C05/forward/rejected-legal-coordinate/north-convention-northing-in-(-1nm,0)" :
              "oracle:C05/forward/rejected-legal-coordinate/" + reg, cls, jpt(zone, northp, x, y).i("prec", prec).str("what", f.what));
       continue;
     }
     std::string want = rm::encode(p, be.band, prec);
     if (f.s != want) {
-      const char* comp = diff_component(f.s, want, p.utm);
-      bool allowed = false;
-      if (std::string(comp) == "band-letter") {
-        std::string alt = be.other != rm::NONE ? rm::encode(p, be.other, prec) : std::string();
-        double nm = be.edge_m * 1e9;
-        if (f.s == alt && nm <= NEIGHBOUR_NM + be.slack_nm) {
-          allowed = true; c.event("forward: neighbouring band letter within 5 nm of the edge");
-          c.obs("neighbour band letter given at distance from band edge [nm]", nm, jpt(zone, northp, x, y));
-        } else {
-          c.viol(lib_model(zone, northp, x, y, p).subnormal ? "oracle:C05/forward/negative-subnormal-northing" : "oracle:C05/forward/band-letter", cls, jpt(zone, northp, x, y).i("prec", prec).str("got", f.s).str("want", want).f("edge_dist_nm", nm).i("ref_band", be.band));
-          continue;
-        }
-      }
-      if (!allowed) {
+      // admissible alternatives: the neighbouring band letter within 5 nm of the edge (property text); for prec >= 6 the
+      // truncation of fl(x * 10^6) instead of x * 10^6 (MGRS.hpp: "for prec in [6, 11] the conversion is accurate to round-off";
+      // the two differ only when the exact product is < 1/2 ulp below an integer)
+      const double nm = be.edge_m * 1e9;
+      const bool nb_ok = p.utm && be.other != rm::NONE && nm <= NEIGHBOUR_NM + be.slack_nm;
+      LibModel m = lib_model(zone, northp, x, y, p);
+      const bool altok = m.product && !m.fold_inexact && !m.fold_to_equator && prec >= 6 && m.pm.legal;
+      bool nb = false, ro = false, accepted = true;
+      if (nb_ok && f.s == rm::encode(p, be.other, prec)) nb = true;
+      else if (altok && f.s == rm::encode(m.pm, be.band, prec)) ro = true;
+      else if (altok && nb_ok && f.s == rm::encode(m.pm, be.other, prec)) nb = ro = true;
+      else accepted = false;
+      if (nb) { c.event("forward: neighbouring band letter within 5 nm of the edge"); c.obs("neighbour band letter given at distance from band edge [nm]", nm, jpt(zone, northp, x, y)); }
+      if (ro) c.event("forward: prec >= 6 digits are the truncation of fl(x * 10^6) (exact product < 1/2 ulp below the next micrometre; documented round-off)");
+      if (!accepted) {
+        const char* comp = diff_component(f.s, want, p.utm);
         std::string key = std::string("oracle:C05/forward/") + comp;
         if (std::string(comp) == "digits") key += prec <= 5 ? "/prec<=5" : "/prec>=6";
-        LibModel m = lib_model(zone, northp, x, y, p);
-        if (m.subnormal) key = "oracle:C05/forward/negative-subnormal-northing";
-        else if (m.fold_to_equator) key = "oracle:C05/forward/not-exact-truncation/north-convention-northing-in-(-1nm,0)";
-        else if ((m.fold_inexact || m.product) && m.pm.legal && (f.s == rm::encode(m.pm, be.band, prec) || (be.other != rm::NONE && f.s == rm::encode(m.pm, be.other, prec)))) {
-          key = m.fold_inexact ? "oracle:C05/forward/not-exact-truncation/north-to-south-fold-y+1e7-rounded" : "oracle:C05/forward/not-exact-truncation/product-x*1e6-rounded-up";
-          if (!m.fold_inexact && prec <= 5) key += "/prec<=5";
-          if (!m.fold_inexact && prec >= 6) {
-            // MGRS.hpp: "for prec in [6, 11] the conversion is accurate to round-off": a digit string that is the truncation of
-            // fl(x * 10^6) instead of x * 10^6 (they differ only when the exact product is < 1/2 ulp below an integer) is accepted
-            c.event("forward: prec >= 6 digits are the truncation of fl(x * 10^6) (exact product < 1/2 ulp below the next micrometre; documented round-off)");
-            R.out[prec + 1] = f.s;
-            continue;
-          }
+        if (m.fold_to_equator) key = "oracle:C05/forward/not-exact-truncation/north-convention-northing-in-(-1nm,0)";
+        else if ((m.fold_inexact || m.product) && m.pm.legal && (f.s == rm::encode(m.pm, be.band, prec) || (nb_ok && f.s == rm::encode(m.pm, be.other, prec)))) {
+          key = m.fold_inexact ? "oracle:C05/forward/not-exact-truncation/north-to-south-fold-y+1e7-rounded" : "oracle:C05/forward/not-exact-truncation/product-x*1e6-rounded-up/prec<=5";
           c.event(m.fold_inexact ? "forward: string explained by the rounding of y + 1e7 (fold)" : "forward: string explained by the rounding of x * 1e6");
         }
-        c.viol(key, cls, jpt(zone, northp, x, y).i("prec", prec).str("got", f.s).str("want", want).i("ref_ix_um", p.ix).i("ref_iy_um", p.iy));
+        c.viol(key, cls, jpt(zone, northp, x, y).i("prec", prec).str("got", f.s).str("want", want).i("ref_ix_um", p.ix).i("ref_iy_um", p.iy).i("ref_band", be.band).f("edge_dist_nm", nm));
         continue;
       }
     }
@@ -168,23 +159,33 @@ static void judge_fwd_lat(Ctx& c, int zone, bool northp, double x, double y, dou
     double k = std::round(lat / 8) * 8;
     if (std::fabs(k) <= 72) { nm = std::fabs(lat - k) * (M_PI / 180) * (double)G->rho_mer(k) * 1e9; other = lat >= k ? band_of_lat(k) - 1 : band_of_lat(k); }
   }
+  // MGRS.hpp: prec 6..11 "accurate to round-off": the truncation of fl(x * 10^6) is accepted next to the exact truncation
+  LibModel m = lib_model(zone, northp, x, y, p);
+  const bool altok = m.product && !m.fold_inexact && !m.fold_to_equator && prec >= 6 && m.pm.legal;
+  bool usedalt = false;
   auto expect = [&](int band, bool& unj) -> std::string {    // "" = must throw
     int v = LT.in(band, p.col(), p.truerow()); unj = v == 2; return v == 1 ? rm::encode(p, band, prec) : std::string(); };
+  auto matches = [&](int band, bool& unj) -> bool {           // does the library behave as the reference demands for this band?
+    std::string wb = expect(band, unj);
+    if (unj) return true;
+    if (wb.empty()) return f.st == 1;
+    if (f.st != 0) return false;
+    if (f.s == wb) return true;
+    if (altok && f.s == rm::encode(m.pm, band, prec)) { usedalt = true; return true; }
+    return false;
+  };
   bool unj = false; std::string want = expect(b, unj);
   if (unj) { c.event("forward-lat: block within 1e-6 m of a band edge (not judged)"); return; }
-  bool ok = want.empty() ? f.st == 1 : (f.st == 0 && f.s == want);
+  bool ok = matches(b, unj);
   if (!ok && other != rm::NONE && nm <= NEIGHBOUR_NM) {      // the neighbouring band's behaviour is allowed within 5 nm
-    bool u2; std::string w2 = expect(other, u2);
-    if (u2 || (w2.empty() ? f.st == 1 : (f.st == 0 && f.s == w2))) { ok = true; c.event("forward-lat: behaves as the neighbouring band within 5 nm of the edge"); c.obs("forward-lat neighbour band behaviour at distance from band edge [nm]", nm, w); }
+    bool u2;
+    if (matches(other, u2)) { ok = true; c.event("forward-lat: behaves as the neighbouring band within 5 nm of the edge"); c.obs("forward-lat neighbour band behaviour at distance from band edge [nm]", nm, w); }
   }
+  if (ok && usedalt) c.event("forward-lat: prec >= 6 digits are the truncation of fl(x * 10^6) (documented round-off)");
   if (!ok) {
     // same rounding causes as in the overload without latitude (named identically: one defect, one key)
-    LibModel m = lib_model(zone, northp, x, y, p);
     auto explained = [&](int band) { return m.pm.legal && LT.in(band, m.pm.col(), m.pm.truerow()) == 1 && f.st == 0 && f.s == rm::encode(m.pm, band, prec); };
-    if (m.subnormal) c.viol("oracle:C05/forward/negative-subnormal-northing", cls, w.str("got", f.s).str("what", f.what));
-    else if (m.fold_to_equator) c.viol(f.st ? "oracle:C05/forward/rejected-legal-coordinate/north-convention-northing-in-(-1nm,0)" : "oracle:C05/forward/not-exact-truncation/north-convention-northing-in-(-1nm,0)", cls, w.str("got", f.s).str("what", f.what));
-    else if (m.product && !m.fold_inexact && prec >= 6 && !want.empty() && (explained(b) || (other != rm::NONE && nm <= NEIGHBOUR_NM && explained(other))))
-      c.event("forward-lat: prec >= 6 digits are the truncation of fl(x * 10^6) (documented round-off)");
+    if (m.fold_to_equator) c.viol(f.st ? "oracle:C05/forward/rejected-legal-coordinate/north-convention-northing-in-(-1nm,0)" : "oracle:C05/forward/not-exact-truncation/north-convention-northing-in-(-1nm,0)", cls, w.str("got", f.s).str("what", f.what));
     else if ((m.fold_inexact || m.product) && !want.empty() && (explained(b) || (other != rm::NONE && explained(other))))
       c.viol(m.fold_inexact ? "oracle:C05/forward/not-exact-truncation/north-to-south-fold-y+1e7-rounded" : "oracle:C05/forward/not-exact-truncation/product-x*1e6-rounded-up", cls, w.str("got", f.s).str("want", want));
     else if (want.empty()) c.viol("oracle:C05/forward-lat/inconsistent-latitude-accepted", cls, w.str("got", f.s).i("band_of_lat", b));
